@@ -1,6 +1,7 @@
 package c12
 
 import (
+	"bytes"
 	"encoding/json"
 	"errors"
 	"fmt"
@@ -27,6 +28,17 @@ type IDCase struct {
 	OptSize       int // 0 = request without OPT, else the advertised EDNS0 UDP size
 	ClientUDPSize int // Client.UDPSize
 	ConnUDPSize   int // Conn.UDPSize preset by the caller
+	// stream, round 9: how a second reply that is queued behind the first reaches the client, and what
+	// the caller does with the Conn after the exchange. OneWrite: the peer hands all replies to one
+	// Write call (with Chunks the segments then span the frame boundary: "one TCP segment carries reply 1
+	// and the beginning of reply 2"); Coalesce: one read of the transport may return octets of several
+	// segments (both replies already in the socket buffer). After: "" | ReadMsg | ReadMsgHeader | Read -
+	// the call with which the caller takes the NEXT message from the same connection after the
+	// exchange (ExchangeConn: through a Conn of its own around the same net.Conn); it must be the
+	// second reply, intact - the exchange consumed its own frame and not one octet more.
+	OneWrite bool   `json:",omitempty"`
+	Coalesce bool   `json:",omitempty"`
+	After    string `json:",omitempty"`
 }
 
 // udpBuffer is the receive buffer size the documentation promises for a datagram exchange.
@@ -98,12 +110,22 @@ func genIDCase(stream bool) func(t *rapid.T) IDCase {
 				c.Replies = []IDRep{{Kind: "foreign", ID: foreign("fid")}}
 			}
 			// a second message may already be queued behind the first: it must not be consumed instead
-			if rapid.Bool().Draw(t, "second") {
+			if rapid.IntRange(0, 2).Draw(t, "second") > 0 {
 				c.Replies = append(c.Replies, IDRep{Kind: "match", ID: c.ID})
 			}
 			c.Chunks = genChunks(t, "chunk")
 			if rapid.IntRange(0, 7).Draw(t, "entry") == 0 {
 				c.API = "ExchangeConn"
+			}
+			c.OneWrite = rapid.Bool().Draw(t, "oneWrite")
+			c.Coalesce = rapid.Bool().Draw(t, "coalesce")
+			if len(c.Replies) > 1 {
+				c.After = rapid.SampledFrom([]string{"", "ReadMsg", "ReadMsgHeader", "Read", "Read"}).Draw(t, "after")
+				for i := range c.Replies {
+					if rapid.Bool().Draw(t, "replySized") {
+						c.Replies[i].Size = rapid.SampledFrom([]int{36, 37, 255, 256, 511, 512, 513, 4096, 4097}).Draw(t, "replySize")
+					}
+				}
 			}
 			return c
 		}
@@ -241,6 +263,21 @@ func checkID(c IDCase) error {
 	if c.API != "" {
 		cl = append(cl, "api="+c.API)
 	}
+	if c.Stream && len(c.Replies) > 1 {
+		cl = append(cl, "second-reply-queued")
+		if c.OneWrite || c.Coalesce {
+			cl = append(cl, "second-reply-queued,coalesced")
+		}
+		if c.After != "" {
+			cl = append(cl, "next-message-taken-with-"+c.After)
+			if c.OneWrite || c.Coalesce {
+				cl = append(cl, "next-message-taken-with-"+c.After+",coalesced")
+			}
+			if c.Replies[0].ID != c.ID {
+				cl = append(cl, "next-message-taken-after-ErrId")
+			}
+		}
+	}
 	if !c.Stream {
 		cl = append(cl, fmt.Sprintf("udp-buffer=%d", c.udpBuffer()))
 		if firstMatch >= 0 && c.Replies[firstMatch].Size > 512 {
@@ -250,8 +287,9 @@ func checkID(c IDCase) error {
 			cl = append(cl, "opt-and-client-size-differ")
 		}
 	}
-	pbt.Note(key, foreignBefore > 0, cl...)
-	if foreignBefore > 0 {
+	nontrivial := foreignBefore > 0 || (c.Stream && len(c.Replies) > 1 && c.After != "")
+	pbt.Note(key, nontrivial, cl...)
+	if nontrivial {
 		pbt.Sample(fmt.Sprintf("stream=%v", c.Stream), c)
 	}
 	return runID(c, firstMatch)
@@ -264,39 +302,108 @@ func runID(c IDCase, firstMatch int) error {
 	if c.Stream {
 		a, b := memnet.Pipe(nil, "", "")
 		a.SetPlan(memnet.StreamPlan{WriteChunks: c.Chunks})
+		b.SetPlan(memnet.StreamPlan{Coalesce: c.Coalesce})
+		var all []byte
 		for i, r := range c.Replies {
-			a.Write(frame(idReply(r.ID, i)))
+			f := frame(idReplySized(r.ID, i, r.Size))
+			if c.OneWrite {
+				all = append(all, f...)
+			} else {
+				a.Write(f)
+			}
+		}
+		if c.OneWrite {
+			a.Write(all)
 		}
 		var rep *dns.Msg
 		var err error
+		co := &dns.Conn{Conn: b}
 		if c.API == "ExchangeConn" {
 			b.SetDeadline(time.Now().Add(10 * time.Second))
 			rep, err = dns.ExchangeConn(b, q)
 		} else {
 			cl := &dns.Client{Net: "tcp", Timeout: 10 * time.Second}
-			rep, _, err = cl.ExchangeWithConn(q, &dns.Conn{Conn: b})
+			rep, _, err = cl.ExchangeWithConn(q, co)
 		}
 		if len(c.Replies) == 0 {
 			return nil
 		}
-		if c.Replies[0].ID == c.ID {
-			if err != nil {
-				return fmt.Errorf("stream exchange (%s) with a matching reply failed: %v", c.API, err)
-			}
-			if rep == nil {
-				return fmt.Errorf("stream exchange (%s) with a matching reply returned neither a reply nor an error", c.API)
-			}
-			if rep.Id != c.ID || replyOrdinal(rep) != 0 {
-				return fmt.Errorf("stream exchange returned reply #%d with ID %d, want reply #0 with ID %d", replyOrdinal(rep), rep.Id, c.ID)
-			}
+		if e := idStreamVerdict(c, rep, err); e != nil {
+			return e
+		}
+		if c.After == "" || len(c.Replies) < 2 {
 			return nil
 		}
-		if !errors.Is(err, dns.ErrId) {
-			return fmt.Errorf("stream exchange: request ID %d, reply ID %d: error is %v, want ErrId (returned reply #%d)", c.ID, c.Replies[0].ID, err, replyOrdinal(rep))
+		// The exchange has taken exactly one frame. The caller goes on with the same connection: the
+		// next message on it is reply #1, whole, whichever call takes it (the peer half-closes, so a
+		// call that looks for octets that are gone reads EOF instead of waiting).
+		a.CloseWrite()
+		b.SetDeadline(time.Now().Add(hangLimit))
+		want := idReplySized(c.Replies[1].ID, 1, c.Replies[1].Size)
+		how := fmt.Sprintf("after the %s exchange (result: %v) took reply #0 (%d octets), %s of the next message on the same connection (reply #1, %d octets, queued behind it; one Write call: %v, chunks %v, reads coalesce: %v)", entryName(c.API), err, len(idReplySized(c.Replies[0].ID, 0, c.Replies[0].Size)), c.After, len(want), c.OneWrite, c.Chunks, c.Coalesce)
+		var got []byte
+		switch c.After {
+		case "ReadMsg":
+			m, e := co.ReadMsg()
+			if e != nil {
+				return fmt.Errorf("%s failed: %v", how, e)
+			}
+			if m.Id != c.Replies[1].ID || replyOrdinal(m) != 1 || len(m.Answer) != 1 || m.Answer[0].(*dns.NULL).Data != string(want[fullOverhead:]) {
+				return fmt.Errorf("%s returned another message: ID %d, reply #%d", how, m.Id, replyOrdinal(m))
+			}
+			return nil
+		case "ReadMsgHeader":
+			p, e := co.ReadMsgHeader(nil)
+			if e != nil {
+				return fmt.Errorf("%s failed: %v", how, e)
+			}
+			got = p
+		case "Read":
+			buf := make([]byte, 65535)
+			n, e := co.Read(buf)
+			if e != nil {
+				return fmt.Errorf("%s failed: %v", how, e)
+			}
+			got = buf[:n]
+		default:
+			return fmt.Errorf("malformed case: After %q", c.After)
+		}
+		if !bytes.Equal(got, want) {
+			return fmt.Errorf("%s returned %d octets %s; the peer sent %d octets %s (first difference at octet %d)", how, len(got), hexHead(got), len(want), hexHead(want), firstDiff(got, want))
 		}
 		return nil
 	}
+	return runIDDatagram(c, firstMatch, q)
+}
 
+func entryName(api string) string {
+	if api == "" {
+		return "Client.ExchangeWithConn"
+	}
+	return api
+}
+
+// idStreamVerdict decides the stream exchange itself: the first reply is the reply; another ID is ErrId.
+func idStreamVerdict(c IDCase, rep *dns.Msg, err error) error {
+	if c.Replies[0].ID == c.ID {
+		if err != nil {
+			return fmt.Errorf("stream exchange (%s) with a matching reply failed: %v", c.API, err)
+		}
+		if rep == nil {
+			return fmt.Errorf("stream exchange (%s) with a matching reply returned neither a reply nor an error", c.API)
+		}
+		if rep.Id != c.ID || replyOrdinal(rep) != 0 {
+			return fmt.Errorf("stream exchange returned reply #%d with ID %d, want reply #0 with ID %d", replyOrdinal(rep), rep.Id, c.ID)
+		}
+		return nil
+	}
+	if !errors.Is(err, dns.ErrId) {
+		return fmt.Errorf("stream exchange: request ID %d, reply ID %d: error is %v, want ErrId (returned reply #%d)", c.ID, c.Replies[0].ID, err, replyOrdinal(rep))
+	}
+	return nil
+}
+
+func runIDDatagram(c IDCase, firstMatch int, q *dns.Msg) error {
 	// datagram: the peer's replies are delivered the moment the request is written
 	pn := memnet.NewPacketNet(nil)
 	srv := pn.Listen("", memnet.UDPAddr(53))
